@@ -160,10 +160,39 @@ func splitIDs(label string) []party.ID {
 	return ids
 }
 
-// msgBytes: 32-byte "message hashes" that share a 31-byte prefix and differ only in the last byte.
+// msgFamily selects how the two abstract messages are made concrete; it is constant within one row.
+var msgFamily = 0
+var zeroSuffix = map[string]int{}
+
+// msgBytes: the abstract messages of a row are made concrete in one of four families, all of which keep the two
+// messages as similar as possible: 32-byte digests differing only in the last byte; 40-byte messages that agree on
+// their first 32 bytes; a 2-byte message and the same message followed by a zero byte; 64-byte digests differing
+// only in the last byte.
 func msgBytes(label string, seed int) []byte {
 	h := sha256.Sum256([]byte(fmt.Sprintf("c11/msg/%d", seed)))
 	l := sha256.Sum256([]byte(label))
+	switch msgFamily % 4 {
+	case 1:
+		m := append(append([]byte(nil), h[:]...), h[:8]...)
+		m[35] = l[0]
+		return m
+	case 2:
+		// the label's position among the labels seen so far decides the number of trailing zero bytes
+		m := []byte{h[0] | 1, h[1] | 1}
+		k, ok := zeroSuffix[label]
+		if !ok {
+			k = len(zeroSuffix)
+			zeroSuffix[label] = k
+		}
+		for i := 0; i < k; i++ {
+			m = append(m, 0)
+		}
+		return m
+	case 3:
+		m := append(append([]byte(nil), h[:]...), h[:]...)
+		m[63] = l[0]
+		return m
+	}
 	h[31] = l[0]
 	return h[:]
 }
@@ -496,7 +525,8 @@ func main() {
 
 	for _, lat := range lattices {
 		w := buildWorld(lat, byLattice[lat], *seed, sum)
-		for _, r := range byLattice[lat] {
+		for ri, r := range byLattice[lat] {
+			msgFamily = ri % 4
 			per := 1
 			if r.Kind == "frost" {
 				per = 2
